@@ -13,8 +13,8 @@ THEOREMS = ['C10_category_range', 'C10_category_of_family', 'C10_field_order', '
             'C10_sortKey_total', 'C10_textKey_total', 'C10_sortBy_total', 'C10_getDistance_total_nonrelay', 'C10_total_partial']
 LEAN_MODULES = ['AthlibVerif.Oblig.C07.Tie', 'AthlibVerif.Oblig.C10.Groups', 'AthlibVerif.Props.C10']
 
-def call(f, *a):
-    try: return 'ok', f(*a)
+def call(f, *a, **kw):
+    try: return 'ok', f(*a, **kw)
     except Exception as e: return type(e).__name__, None
 
 def run(ctx):
@@ -130,6 +130,22 @@ def run(ctx):
         if (ta < tb) != (ka < kb) or (ta == tb) != (ka == kb):
             ctx.fail('athlib.text_discipline_sort_key', [a, b], 'text keys sort like the tuple keys %r %r' % (ka, kb), '%r %r' % (ta, tb), note='text key order differs from tuple key order')
     ctx.count(npairs, 'text_key_pairs')
+    # the text key is a function of the code: "<category>_<order, five digits>_<code>", whatever was keyed before — codes
+    # of 100 km and more are keyed in between
+    long_codes = [c for c in ['100000', '160900', '4x100K', '4x100M', '200K', '1000000'] if codes.PAT_EVENT_CODE.match(c)]
+    tk_sample = [a for a, ka in rng.sample(ks, min(len(ks), 400)) if ka[1] < 100000]
+    for rnd in range(2):
+        for a in tk_sample:
+            ka = keys[a]
+            st, ta = call(athlib.text_discipline_sort_key, a)
+            want = '%d_%05d_%s' % (ka[0], ka[1], a)
+            ctx.count(1, 'text_key_format')
+            if st != 'ok' or ta != want:
+                ctx.fail('athlib.text_discipline_sort_key', [a], want, ta if st == 'ok' else st,
+                         note='text key is not "<category>_<five-digit order>_<code>"' + (' (after keying codes of 100 km and more)' if rnd else ''),
+                         replay_py='for c in %r: athlib.text_discipline_sort_key(c)\nresult = athlib.text_discipline_sort_key(%r)' % (long_codes if rnd else [], a))
+        for c in long_codes:
+            call(athlib.text_discipline_sort_key, c)
     # ---- the sorter
     lists = []
     nl = 300 if ctx.quick() else 5000
@@ -148,16 +164,31 @@ def run(ctx):
         stuff = [dict(discipline=c, n=i) for i, c in enumerate(l)]
         # a missing discipline, in the forms it arrives in: no key, JSON null, empty text
         extra = rng.choice([[dict(n=-1)], [dict(discipline=None, n=-2)], [dict(discipline='', n=-3)], [dict(n=-1), dict(discipline=None, n=-2)]]) if rng.random() < 0.4 else []
-        st, res = call(athlib.sort_by_discipline, stuff + extra)
+        form = rng.random()
+        if form < 0.2:
+            # the documented attr= option: the discipline under another name, in dicts ...
+            stuff = [dict(e=c, n=i) for i, c in enumerate(l)]; extra = [dict(n=-1)] if extra else []
+            st, res = call(athlib.sort_by_discipline, stuff + extra, 'e')
+            get = lambda d: d.get('e')
+        elif form < 0.4:
+            # ... and in objects, under the default name or another one
+            import types
+            nm = rng.choice(['discipline', 'event', 'e'])
+            stuff = [types.SimpleNamespace(**{nm: c, 'n': i}) for i, c in enumerate(l)]; extra = [types.SimpleNamespace(n=-1)] if extra else []
+            st, res = (call(athlib.sort_by_discipline, stuff + extra) if nm == 'discipline' and rng.random() < 0.5 else call(athlib.sort_by_discipline, stuff + extra, attr=nm))
+            get = lambda d, nm=nm: getattr(d, nm, None)
+        else:
+            st, res = call(athlib.sort_by_discipline, stuff + extra)
+            get = lambda d: d.get('discipline')
         if st != 'ok':
             ctx.fail('athlib.sort_by_discipline', [l], 'a sorted list', st, note='sorter raises'); continue
         if sorted(map(repr, res)) != sorted(map(repr, stuff + extra)):
             ctx.fail('athlib.sort_by_discipline', [l], 'a permutation of the input', repr(res), note='sorter loses or invents entries')
-        kk = [athlib.discipline_sort_key(d.get('discipline')) for d in res]
+        kk = [athlib.discipline_sort_key(get(d)) for d in res]
         if any(kk[i] > kk[i + 1] for i in range(len(kk) - 1)):
             ctx.fail('athlib.sort_by_discipline', [l], 'sorted by discipline_sort_key', repr(kk), note='sorter output not sorted')
         if not extra and l:
-            sreq.append('cd\tsort\t' + '|'.join(CC.cps(c) for c in l)); sexp.append('ok ' + '|'.join(CC.cps(d['discipline']) for d in res))
+            sreq.append('cd\tsort\t' + '|'.join(CC.cps(c) for c in l)); sexp.append('ok ' + '|'.join(CC.cps(get(d)) for d in res))
     sg = vlib.driver(sreq)
     nd2 = sum(1 for e, g_ in zip(sexp, sg) if e.strip() != g_.strip())
     ctx.count(len(lists), 'sorter_lists')
